@@ -672,4 +672,5 @@ func (e *codecEnv) runDirectedPrograms(rng *rand.Rand, emit bool) {
 		e.runNestingWalk(rng, k.kind, k.max, emit)
 		e.st.Programs++
 	}
+	e.runStorableSlabPrograms(rng, emit) // codecstorslab.go: size limit and inlined-container refusal of the StorableSlab
 }
